@@ -536,13 +536,13 @@ fn assumptions(prop: &str) -> Vec<&'static str> {
 
 fn expected_probes(prop: &str) -> Vec<&'static str> {
     match prop {
-        "C06" => vec!["nested Some(Some(..))", "None payload", "option of a structure that contains options", "byte payload with padding", "concatenated stream", "EINTR during load", "EINTR during serialize", "file route (serialize_to/load_from)", "single-element structure", "select support with long superblocks", "structure larger than 65536 elements", "load_from on a named pipe"],
-        "C12" => vec!["whole buffer of zeros ending on a flush boundary", "flush with carried overflow", "flush with exactly full buffer", "final flush of an empty buffer", "zero pushes", "width 64", "push_int(_, 0)", "dropped while open", "close() called again after success", "buffer size 0", "parent header (close_with_header)", "real file system cross-check", "longer file already present", "writer dropped while the stack unwinds", "extend from an iterator that panics partway"],
+        "C06" => vec!["string above 32 MiB with characters across the 2^25-byte marks", "vector of more than 2731 three-word items", "nested Some(Some(..))", "None payload", "option of a structure that contains options", "byte payload with padding", "concatenated stream", "EINTR during load", "EINTR during serialize", "file route (serialize_to/load_from)", "single-element structure", "select support with long superblocks", "structure larger than 65536 elements", "load_from on a named pipe"],
+        "C12" => vec!["buffer above 8 MiB", "whole buffer of zeros ending on a flush boundary", "flush with carried overflow", "flush with exactly full buffer", "final flush of an empty buffer", "zero pushes", "width 64", "push_int(_, 0)", "dropped while open", "close() called again after success", "buffer size 0", "parent header (close_with_header)", "real file system cross-check", "longer file already present", "writer dropped while the stack unwinds", "extend from an iterator that panics partway"],
         "C13" => vec!["raw vector of more than 2^32 bits mapped", "empty or tiny structure at end of file", "option holding an empty structure", "truncation exactly after a length element", "truncation inside a structure", "offsets outside the file requested", "file mapped through a symbolic link", "views created again after an in-place rewrite through the same map"],
         "C14" => vec!["fault exactly on an element boundary", "fault inside an element", "skip: fault after the length element", "sink fails on the first byte", "sink fails in the last element", "failure reported by a panicking push", "failure reported by close()", "failure reported by the constructor", "fault in a header write", "fault in a body write", "truncation inside a structure", "close() asked again after a reported failure"],
-        "C18" => vec!["file names that are not UTF-8", "write-protected file (mode 0444)", "several maps alive at once", "write through a mutable map", "file checked after dropping a mutable map", "map creation failed loudly", "map dropped", "file grown while a map of it is alive", "map dropped while the stack unwinds", "working directory removed, files named by relative paths"],
-        "C20" => vec!["a thread with more than 65536 calls", "a thread started while others were already running", "a thread exited while others were still alive", "three or more threads alive at once", "names requested from a thread-local destructor at thread exit", "a thread with more than 2^20 calls", "name parts that spell a path", "more than 1024 threads in one process", "TMPDIR moved away and back while names were handed out", "name parts that look like format placeholders"],
-        "C19" => vec!["two or more write/load steps in one history", "empty bitvector", "support structures actually removed", "foreign file loaded through load_from", "foreign composite inside an Option", "foreign sparse vector with a different low-part width", "embedded bitvectors written with different support subsets", "skip over a 3-level nested option", "skip over None", "EINTR while skipping or loading", "skip over a bitvector with supports", "absent_option written"],
+        "C18" => vec!["file names that are not UTF-8", "write-protected file (mode 0444)", "path with .. after a symbolic link to a directory", "file under somebody else's exclusive advisory lock", "several maps alive at once", "write through a mutable map", "file checked after dropping a mutable map", "map creation failed loudly", "map dropped", "file grown while a map of it is alive", "map dropped while the stack unwinds", "working directory removed, files named by relative paths"],
+        "C20" => vec!["a thread with more than 65536 calls", "a thread started while others were already running", "a thread exited while others were still alive", "three or more threads alive at once", "names requested from a thread-local destructor at thread exit", "a thread with more than 2^20 calls", "name parts that spell a path", "more than 1024 threads in one process", "TMPDIR moved away and back while names were handed out", "name parts that look like format placeholders", "serialize::test run between the calls", "more than 2^24 names in one process"],
+        "C19" => vec!["bitvector of more than 2^32 bits with select support written and loaded", "bitvector of more than 2^30 bits with rank support written and loaded", "two or more write/load steps in one history", "empty bitvector", "support structures actually removed", "foreign file loaded through load_from", "foreign composite inside an Option", "foreign sparse vector with a different low-part width", "embedded bitvectors written with different support subsets", "skip over a 3-level nested option", "skip over None", "EINTR while skipping or loading", "skip over a bitvector with supports", "absent_option written"],
         _ => vec![],
     }
 }
